@@ -248,7 +248,8 @@ class MirOb:
                  bounds="full width of the input types; loop-free", outside=None, tier="quick", modes=("dev", "release"),
                  panic_ok=None, min_paths=1, probes=None, loop_bound=8, out_of_ref=None, uf_mul=False, timeout_ms=30000,
                  eval_out=None, ret_shape="Duration", native_refs=None, pin_vars=None, summaries=None, summaries_concrete=None,
-                 loop_contracts=None, on_loop_failure=None, nprobe=None, feas_timeout_ms=None):
+                 loop_contracts=None, on_loop_failure=None, nprobe=None, feas_timeout_ms=None, validate_key=None):
+        self.validate_key = validate_key   # native eval key used for translator validation when it differs from the judging key
         self.feas_timeout_ms = feas_timeout_ms
         self.loop_contracts = loop_contracts or []
         self.on_loop_failure = on_loop_failure   # callable(list of solver models) -> follow-up obligations (bounded unrolling)
@@ -623,9 +624,15 @@ def _validate_translation(eng, ob, fn_item, nat, seed, n):
             bad.append({"inputs": vals, "error": f"{len(ends)} path ends on concrete input"})
             continue
         mine = " ".join(tok_str(t) for t in end_tokens(ob, ends[0], huid))
-        theirs = nat(ob.eval_key, native_args(ob, allvars, vals))
+        theirs = nat(getattr(ob, "validate_key", None) or ob.eval_key, native_args(ob, allvars, vals))
         cnt += 1
-        if eng.mode == "release" and False:
+        # boundary probes are also judged with the post-condition: they never decide that a property holds (only the solver's
+        # unsat does), but they provide a replayable witness when the solver later answers `unknown` on a violated query
+        try:
+            jl = theirs if not getattr(ob, "validate_key", None) else nat(ob.eval_key, native_args(ob, allvars, vals))
+            if len(getattr(ob, "_probe_ces", [])) < 3 and judge_native(ob, allvars, vals, jl):
+                ob.__dict__.setdefault("_probe_ces", []).append({"inputs": dict(vals), "native": jl, "mode": eng.mode})
+        except Exception:
             pass
         if mine != theirs:
             bad.append({"inputs": vals, "mirsym": mine, "native": theirs})
@@ -882,8 +889,22 @@ def run_obligations(obs, tier, seed, need_replay, build_info):
                     eng.solver_s += time.time() - tq
                 for e, what, goal, r, m in solved:
                     if r == z3.unknown:
-                        rec["verdict"] = "unknown"
-                        rec["detail"] = f"solver returned unknown ({mode}) on: {what}"
+                        pcs = getattr(ob, "_probe_ces", [])
+                        if pcs and rec["verdict"] != "violation":
+                            # the solver gave up on this query, but a boundary probe already violates the post-condition natively
+                            for pc_ in pcs[:2]:
+                                vals = pc_["inputs"]
+                                nargs = native_args(ob, allvars, vals)
+                                native = {pf: nats[pm](ob.eval_key, nargs) for pf, pm in (("debug", "dev"), ("release", "release"))}
+                                confirmed = {pf: judge_native(ob, allvars, vals, outl) for pf, outl in native.items()}
+                                if any(confirmed.values()):
+                                    rec["verdict"] = "violation"
+                                    rec["counterexamples"].append({"check": f"{what} [{mode}; solver unknown, witness from the boundary probes]", "inputs": vals,
+                                                                   "eval": [ob.eval_key] + [str(x) for x in nargs], "native": native, "native_violates": confirmed})
+                                    break
+                        if rec["verdict"] != "violation":
+                            rec["verdict"] = "unknown"
+                            rec["detail"] = f"solver returned unknown ({mode}) on: {what}"
                         continue
                     if tier == "thorough" and r == z3.unsat:
                         c5 = cvc5_check(smt2_of(e.state.pc, goal))
@@ -1009,6 +1030,8 @@ def parse_shape(shape, toks):
         return EnumV("Option<Ordering>", 1, (EnumV("Ordering", int(toks[1]), (), None),), "Some") if toks[0] == "Some" else EnumV("Option", 0, (), "None")
     if shape == "Result<i64>":
         return EnumV("Result", 0, (I("i64", toks[1]),), "Ok") if toks[0] == "Ok" else EnumV("Result", 1, (Opaque("e"),), "Err")
+    if shape == "pair_i32":
+        return Agg(None, tuple(I("i32", x) for x in toks[:2]))
     if shape == "greg7":
         tys = ["i32", "u8", "u8", "u8", "u8", "u8", "u32"]
         return Agg(None, tuple(I(ty, x) for ty, x in zip(tys, toks)))
